@@ -8,6 +8,13 @@ Mirrors:
 * `Keeper.CancelOrder` (owner or cancel perm)   x/exchange/keeper/orders.go:709
 * payment identity checks                       x/exchange/keeper/payments.go:230-425
 * the authority comparison of gov-only handlers (all modules)
+
+Spellings: the guards receive the TEXT of an address field.  `Text` = (account, spelling):
+`Keeper.IsAuthority` is `strings.EqualFold` (any case of the authority's letters passes),
+`HasPermission` then decodes the text (`sdk.AccAddressFromBech32`: all-lower and all-upper case
+are the same account, mixed case is an error) and looks the ACCOUNT up; `CancelOrder` compares the
+signer TEXT with the stored owner TEXT; governance handlers compare up to case or exactly,
+handler by handler (`govFoldMsgs`).  Payment parties are not varied in spelling (plain names).
 -/
 import PvModel.Util
 
@@ -74,12 +81,42 @@ def Endpoint.canFn : Endpoint → String
   | .MarketUpdateIntermediaryDenom => "CanUpdateMarket"
   | .MarketManagePermissions => "CanManagePermissions" | .MarketManageReqAttrs => "CanManageReqAttrs"
 
-abbrev Grant := Nat × String × Perm      -- (market, address, permission)
+abbrev Grant := Nat × String × Perm      -- (market, account, permission)
+
+/-- How the address field of a message is spelled. The Go guards receive the TEXT of the field:
+`lower` is the usual bech32 text (`AccAddress.String()`), `upper` the all-upper-case bech32 text
+of the same bytes (accepted by `sdk.AccAddressFromBech32`, equal to the lower-case text under
+`strings.EqualFold`), `mixed` a mixed-case text of the same letters (still equal under
+`strings.EqualFold`, but rejected by `sdk.AccAddressFromBech32`, so no transaction can be signed
+under it — it reaches the guards only when they are called directly). -/
+inductive Spelling where
+  | lower | upper | mixed
+  deriving DecidableEq, Repr
+
+/-- The text of an address field: which account's bech32 letters it consists of, and their case.
+Accounts are symbolic names (`"A"`, `"GOV"`, …); the store is keyed by account (address bytes). -/
+structure Text where
+  acc : String
+  sp : Spelling := .lower
+  deriving DecidableEq, Repr
+
+/-- what `strings.EqualFold` compares: the letters without their case -/
+def Text.fold (t : Text) : String := t.acc
+
+/-- `sdk.AccAddressFromBech32`: all-lower and all-upper case texts decode to the account, a
+mixed-case text is an error. -/
+def Text.decode (t : Text) : Option String :=
+  match t.sp with
+  | .mixed => none
+  | _ => some t.acc
+
+/-- the canonical (lower-case) text of an account -/
+def Text.of (a : String) : Text := { acc := a }
 
 structure Order where
   id : Nat
   market : Nat
-  owner : String
+  owner : Text          -- the TEXT of the `seller`/`buyer` field as stored with the order
   deriving DecidableEq, Repr
 
 structure Payment where
@@ -98,18 +135,28 @@ structure State where
 /-- `storeHasPermission` -/
 def storeHas (s : State) (m : Nat) (a : String) (p : Perm) : Bool := s.grants.contains (m, a, p)
 
-/-- `Keeper.HasPermission`: the authority always passes. -/
-def hasPermission (s : State) (m : Nat) (a : String) (p : Perm) : Bool :=
-  a == s.authority || storeHas s m a p
+/-- `Keeper.IsAuthority` (x/exchange/keeper/keeper.go:128): `strings.EqualFold(k.authority, addr)`. -/
+def isAuthority (s : State) (a : Text) : Bool := a.fold == s.authority
+
+/-- `Keeper.HasPermission` (market.go:1017): the authority (under any spelling) always passes;
+otherwise the text must decode and the store must hold the key of the decoded account. -/
+def hasPermission (s : State) (m : Nat) (a : Text) (p : Perm) : Bool :=
+  isAuthority s a ||
+    match a.decode with
+    | none => false
+    | some x => storeHas s m x p
 
 /-- the guard at the top of a market endpoint -/
-def endpointAllowed (s : State) (e : Endpoint) (m : Nat) (caller : String) : Bool :=
+def endpointAllowed (s : State) (e : Endpoint) (m : Nat) (caller : Text) : Bool :=
   hasPermission s m caller e.required
 
 def userPerms (s : State) (m : Nat) (a : String) : List Perm :=
   Perm.all.filter fun p => storeHas s m a p
 
-/-- A `MsgMarketManagePermissionsRequest` body. -/
+/-- A `MsgMarketManagePermissionsRequest` body. The three lists name ACCOUNTS: `UpdatePermissions`
+turns every address text into bytes first (`sdk.MustAccAddressFromBech32`), so the spelling of a
+grantee makes no difference (the driver's parser decodes `A^` to `A`; a text that does not decode
+is rejected by `ValidateBasic` before the handler). -/
 structure PermUpdate where
   revokeAll : List String
   toRevoke : List (String × List Perm)
@@ -147,8 +194,9 @@ def updatePermissions (s : State) (m : Nat) (u : PermUpdate) : Except String Sta
   | some gs => .ok { s with grants := gs }
   | none => .error "invalid"
 
-/-- `Keeper.CancelOrder`: owner, or cancel permission on the order's market. -/
-def cancelOrder (s : State) (id : Nat) (signer : String) : Except String State :=
+/-- `Keeper.CancelOrder` (orders.go:718): `signer != orderOwner` compares the two TEXTS; failing
+that, the cancel permission on the order's market. -/
+def cancelOrder (s : State) (id : Nat) (signer : Text) : Except String State :=
   match s.orders.find? (·.id = id) with
   | none => .error "notfound"
   | some o =>
@@ -197,8 +245,22 @@ def createPayment (s : State) (source extId target : String) : Except String Sta
   | some _ => .error "exists"
   | none => .ok { s with payments := s.payments ++ [{ source := source, extId := extId, target := target }] }
 
-/-- a governance-only handler: `if authority != msg.Authority { return err }` -/
-def govAllowed (s : State) (caller : String) : Bool := caller == s.authority
+/-- The governance handlers that compare through `Keeper.ValidateAuthority` → `Keeper.IsAuthority`
+(`strings.EqualFold`); every other one compares the two strings with `!=` (in the handler, or in
+ibcratelimit's `ValidateAuthority`). Checked handler by handler against the regenerated source
+facts (`PvProofs.C11.gov_handlers_guarded`). -/
+def govFoldMsgs : List (String × String) := [
+  ("attribute", "MsgUpdateParamsRequest"),
+  ("exchange", "MsgGovCloseMarketRequest"), ("exchange", "MsgGovCreateMarketRequest"),
+  ("exchange", "MsgGovManageFeesRequest"), ("exchange", "MsgUpdateParamsRequest"),
+  ("ibchooks", "MsgUpdateParamsRequest"), ("marker", "MsgUpdateParamsRequest"),
+  ("name", "MsgUpdateParamsRequest")]
+
+/-- a governance-only handler `module.msg`: `if err := k.ValidateAuthority(msg.Authority); err != nil`
+(case folding) or `if authority != msg.Authority { return err }` (exact text). -/
+def govAllowed (s : State) (module msg : String) (caller : Text) : Bool :=
+  if govFoldMsgs.contains (module, msg) then caller.fold == s.authority
+  else caller == Text.of s.authority
 
 /-- What a governance-only request carries besides its `Authority`: the market its market-id
 field names, the account its address-typed fields name (record address, target, recipient, new
@@ -214,16 +276,17 @@ structure GovPayload where
 
 /-- The operations of a history (what the harness drives through the real msg server). -/
 inductive Op where
-  | perms (admin : String) (m : Nat) (u : PermUpdate)
-  | call (e : Endpoint) (m : Nat) (caller : String)
-  | order (id m : Nat) (owner : String)          -- an order was created (id assigned by the chain)
-  | cancel (id : Nat) (signer : String)
+  | perms (admin : Text) (m : Nat) (u : PermUpdate)
+  | call (e : Endpoint) (m : Nat) (caller : Text)
+  | hasperm (m : Nat) (a : Text) (p : Perm)      -- `Keeper.HasPermission` called directly
+  | order (id m : Nat) (owner : Text)            -- an order was created (id assigned by the chain)
+  | cancel (id : Nat) (signer : Text)
   | pay (source ext target : String)
   | accept (source ext signer : String)
   | reject (source ext signer : String)
   | cancelpay (signer ext : String)
   | retarget (signer ext newTarget : String)
-  | gov (name caller : String) (payload : GovPayload)
+  | gov (module msg : String) (caller : Text) (payload : GovPayload)   -- message `module.msg`
 
 def opResult (r : Except String State) (s : State) : State × String :=
   match r with
@@ -236,6 +299,7 @@ def applyOp (s : State) : Op → State × String
     if !endpointAllowed s .MarketManagePermissions m admin then (s, "err:perm")
     else opResult (updatePermissions s m u) s
   | .call e m caller => (s, if endpointAllowed s e m caller then "pass" else "err:perm")
+  | .hasperm m a p => (s, if hasPermission s m a p then "true" else "false")
   | .order id m owner => ({ s with orders := s.orders ++ [{ id := id, market := m, owner := owner }] }, "ok")
   | .cancel id signer => opResult (cancelOrder s id signer) s
   | .pay source ext target => opResult (createPayment s source ext target) s
@@ -243,7 +307,7 @@ def applyOp (s : State) : Op → State × String
   | .reject source ext signer => opResult (rejectPayment s source ext signer) s
   | .cancelpay signer ext => opResult (cancelPayment s signer ext) s
   | .retarget signer ext nt => opResult (changeTarget s signer ext nt) s
-  | .gov _ caller _ => (s, if govAllowed s caller then "pass" else "err:authority")
+  | .gov module msg caller _ => (s, if govAllowed s module msg caller then "pass" else "err:authority")
 
 def run (s : State) (ops : List Op) : State := ops.foldl (fun s op => (applyOp s op).1) s
 
